@@ -64,6 +64,9 @@ class G:
         # skips must not take the language switch with them
         if self.rng.random() < 0.25:
             self.s += self.rng.choice([' \\LaTeX', '\\dots', ' \\unkq', '\\ldots ', ' \\TeX '])
+        elif self.rng.random() < 0.3:
+            # white space at the end of the insertion
+            self.s += self.rng.choice([' ', '  ', '\n', ' \t'])
         self.s += '}'
         self.insertions.append((outer, LT[l2], [w for w, _, _ in self.words[n0:]]))
 
